@@ -30,31 +30,6 @@ Definition blank (s : sample) : sample := mkSample (sname s) [].
 Definition named (s : sample) : sample :=
   mkSample (sname s) (map (fun n => mkContig n []) (map cname (scontigs s))).
 
-Section WithZstd.
-  Variable zc : N -> list N -> list N.
-  Variable zd : list N -> option (list N).
-  Hypothesis zd_zc : forall l x, zd (zc l x) = Some x.
-  Hypothesis zc_nonempty : forall l x, zc l x <> [].
-  Variables ss k : N.
-  Hypothesis Hpred : ss + k <= 2147483648.
-
-  (* a batch whose five detail streams (and their zstd images) have lengths that fit the u32 size fields *)
-  Definition batch_small (B : list sample) : Prop :=
-    match ser_details ss k (segs_of B) with
-    | Ok vd => Forall (fun s => lenN s < 4294967296 /\ lenN (zc 19 s) < 4294967296) (streams_list vd)
-    | _ => True
-    end.
-  Definition batch_ok (B : list sample) : Prop :=
-    Forall sample_wf B /\ lenN B < 4294967296 /\ batch_small B.
-
-  Definition names_part (B : list sample) : part :=
-    let v := ser_names (names_of B) in (zc 18 v, lenN v).
-  Definition details_part (B : list sample) : part :=
-    match ser_details ss k (segs_of B) with
-    | Ok vd => (pack5 (streams_list vd) (map (zc 19) (streams_list vd)), 0)
-    | _ => ([], 0)
-    end.
-
   (* ---------------------------------------------------------------- list lemmas *)
   Lemma nth_error_mid {A} (P : list A) x R : nth_error (P ++ x :: R) (length P) = Some x.
   Proof. rewrite nth_error_app2 by lia. rewrite Nat.sub_diag. reflexivity. Qed.
@@ -93,6 +68,63 @@ Section WithZstd.
     replace (S (length P)) with (length (P ++ [s])) by (rewrite app_length; cbn; lia).
     fold (segs_of B). rewrite IH. rewrite <- app_assoc. reflexivity.
   Qed.
+
+  (* ---------------------------------------------------------------- sample ids after loading *)
+  Lemma id_get_remove_other m k1 k2 : k1 <> k2 -> id_get (id_remove m k1) k2 = id_get m k2.
+  Proof.
+    intro H. induction m as [|[k' v] m IH]; [reflexivity|]. cbn [id_remove id_get].
+    destruct (beqb k' k1) eqn:E1.
+    - apply beqb_eq in E1. subst k'. rewrite IH.
+      replace (beqb k1 k2) with false by (symmetry; apply beqb_neq; exact H). reflexivity.
+    - cbn [id_get]. rewrite IH. reflexivity.
+  Qed.
+  Lemma id_get_insert m k1 v k2 :
+    id_get (id_insert m k1 v) k2 = if beqb k1 k2 then Some v else id_get m k2.
+  Proof.
+    unfold id_insert. cbn [id_get]. destruct (beqb k1 k2) eqn:E; [reflexivity|].
+    apply id_get_remove_other. apply beqb_neq. exact E.
+  Qed.
+
+  (* after deserialize_sample_names with pairwise different names, looking a name up gives its position *)
+  Lemma ids_of_get names : forall i m nm j,
+    NoDup names -> nth_error names j = Some nm -> id_get (ids_of names i m) nm = Some (i + N.of_nat j).
+  Proof.
+    induction names as [|n names IH]; intros i m nm j Hnd Hj; [destruct j; discriminate|].
+    inversion Hnd as [|? ? Hnotin Hnd']; subst. cbn [ids_of].
+    destruct j as [|j].
+    - injection Hj as ->.
+      assert (Hkeep : forall names' i' m', ~ In nm names' -> id_get (ids_of names' i' m') nm = id_get m' nm).
+      { induction names' as [|n' names' IHn]; intros i' m' Hni; [reflexivity|]. cbn [ids_of].
+        rewrite IHn by (intro; apply Hni; right; assumption). rewrite id_get_insert.
+        replace (beqb n' nm) with false; [reflexivity|]. symmetry. apply beqb_neq. intro; subst. apply Hni. left. reflexivity. }
+      rewrite Hkeep by exact Hnotin. rewrite id_get_insert, beqb_refl. f_equal. lia.
+    - cbn [nth_error] in Hj. rewrite (IH (i + 1) _ nm j Hnd' Hj). f_equal. lia.
+  Qed.
+
+Section WithZstd.
+  Variable zc : N -> list N -> list N.
+  Variable zd : list N -> option (list N).
+  Hypothesis zd_zc : forall l x, zd (zc l x) = Some x.
+  Hypothesis zc_nonempty : forall l x, zc l x <> [].
+  Variables ss k : N.
+  Hypothesis Hpred : ss + k <= 2147483648.
+
+  (* a batch whose five detail streams (and their zstd images) have lengths that fit the u32 size fields *)
+  Definition batch_small (B : list sample) : Prop :=
+    match ser_details ss k (segs_of B) with
+    | Ok vd => Forall (fun s => lenN s < 4294967296 /\ lenN (zc 19 s) < 4294967296) (streams_list vd)
+    | _ => True
+    end.
+  Definition batch_ok (B : list sample) : Prop :=
+    Forall sample_wf B /\ lenN B < 4294967296 /\ batch_small B.
+
+  Definition names_part (B : list sample) : part :=
+    let v := ser_names (names_of B) in (zc 18 v, lenN v).
+  Definition details_part (B : list sample) : part :=
+    match ser_details ss k (segs_of B) with
+    | Ok vd => (pack5 (streams_list vd) (map (zc 19) (streams_list vd)), 0)
+    | _ => ([], 0)
+    end.
 
   (* ---------------------------------------------------------------- what well-formed samples give the codecs *)
   Lemma names_of_ok B :
@@ -309,38 +341,6 @@ Section WithZstd.
       replace (lenN P + lenN B) with (lenN (P ++ B)) by (rewrite lenN_app; reflexivity).
       rewrite IH. cbn [a_samples a_contigs a_details a_cur map].
       rewrite <- !app_assoc. reflexivity.
-  Qed.
-
-  (* ---------------------------------------------------------------- sample ids after loading *)
-  Lemma id_get_remove_other m k1 k2 : k1 <> k2 -> id_get (id_remove m k1) k2 = id_get m k2.
-  Proof.
-    intro H. induction m as [|[k' v] m IH]; [reflexivity|]. cbn [id_remove id_get].
-    destruct (beqb k' k1) eqn:E1.
-    - apply beqb_eq in E1. subst k'. rewrite IH.
-      replace (beqb k1 k2) with false by (symmetry; apply beqb_neq; exact H). reflexivity.
-    - cbn [id_get]. rewrite IH. reflexivity.
-  Qed.
-  Lemma id_get_insert m k1 v k2 :
-    id_get (id_insert m k1 v) k2 = if beqb k1 k2 then Some v else id_get m k2.
-  Proof.
-    unfold id_insert. cbn [id_get]. destruct (beqb k1 k2) eqn:E; [reflexivity|].
-    apply id_get_remove_other. apply beqb_neq. exact E.
-  Qed.
-
-  (* after deserialize_sample_names with pairwise different names, looking a name up gives its position *)
-  Lemma ids_of_get names : forall i m nm j,
-    NoDup names -> nth_error names j = Some nm -> id_get (ids_of names i m) nm = Some (i + N.of_nat j).
-  Proof.
-    induction names as [|n names IH]; intros i m nm j Hnd Hj; [destruct j; discriminate|].
-    inversion Hnd as [|? ? Hnotin Hnd']; subst. cbn [ids_of].
-    destruct j as [|j].
-    - injection Hj as ->.
-      assert (Hkeep : forall names' i' m', ~ In nm names' -> id_get (ids_of names' i' m') nm = id_get m' nm).
-      { induction names' as [|n' names' IHn]; intros i' m' Hni; [reflexivity|]. cbn [ids_of].
-        rewrite IHn by (intro; apply Hni; right; assumption). rewrite id_get_insert.
-        replace (beqb n' nm) with false; [reflexivity|]. symmetry. apply beqb_neq. intro; subst. apply Hni. left. reflexivity. }
-      rewrite Hkeep by exact Hnotin. rewrite id_get_insert, beqb_refl. f_equal. lia.
-    - cbn [nth_error] in Hj. rewrite (IH (i + 1) _ nm j Hnd' Hj). f_equal. lia.
   Qed.
 
   (* ---------------------------------------------------------------- the theorem *)
@@ -648,7 +648,7 @@ Proof.
       by (rewrite map_map; exact HnP).
     rewrite Htab, tab_reg_mid by exact HnP'. unfold add_ct. rewrite memb_cnames.
     destruct (existsb (fun c' => beqb (cname c') ct) (scontigs smp)).
-    + exists c, false. rewrite <- HS. split; [reflexivity|]. split; [exact Hok|]. exact Htab.
+    + exists c, false. split; [reflexivity|]. split; [exact Hok|]. exact Htab.
     + eexists. exists true. split; [reflexivity|].
       unfold with_samples, coll_ok, tab_of. cbn [samples ids]. rewrite to_nat_lenN, set_nth_mid.
       split.
@@ -681,7 +681,7 @@ Proof.
         - apply H4. intro; apply Hn; apply in_or_app; left; assumption.
         - symmetry. apply beqb_neq. intro; subst nm. apply Hn. apply in_or_app. right. left. reflexivity. }
     + rewrite map_app. cbn [map sname scontigs cname]. symmetry. apply tab_reg_absent.
-      rewrite map_fst_tab_of. exact Hnin.
+      rewrite map_map. exact Hnin.
 Qed.
 
 Lemma reg_all_ok ops : forall c,
